@@ -309,8 +309,8 @@ def clone_val(E, v):
     if isinstance(v, VecV):
         return VecV([clone_val(E, x) for x in v.buf], v.kind)
     if isinstance(v, Agg):
-        if v.ty.startswith('{closure'):
-            return Agg(v.ty, v.variant, list(v.fields))
+        if isinstance(v, Closure):
+            return Closure(v.ty, list(v.fields), v.body)
         return Agg(v.ty, v.variant, [clone_val(E, x) for x in v.fields])
     if isinstance(v, MapV):
         m = MapV(v.kind)
@@ -1322,7 +1322,7 @@ def _pat_pred(E, pat):
     p = deref(pat)
     if isinstance(p, I):
         return lambda c: i_eq(c, p)
-    if isinstance(p, (Slice, Agg)) and not (isinstance(p, Agg) and p.ty.startswith('{closure')):
+    if isinstance(p, (Slice, Agg)) and not isinstance(p, Closure):
         cs = list(as_slice(p).items())
         return lambda c: b_or(*[i_eq(c, x) for x in cs])
     return lambda c: E.call_value(p, [c])
@@ -2002,5 +2002,19 @@ def fallback(E, ci, argv, fr):
             return v.methods[ci.method](E, ci, *argv)
     if ci.kind == 'trait' and ci.trait_last in ('Fn', 'FnMut', 'FnOnce'):
         args = argv[1].fields if len(argv) > 1 and isinstance(argv[1], Agg) else []
-        return E.call_value(argv[0], list(args))
+        f = argv[0]
+        if deref(f) is None:          # capture-less closure: a ZST that is never materialised
+            t = strip_refs(ci.self_ty)
+            if t.startswith('{closure@'):
+                f = E.mk_closure(t, [], fr)
+        return E.call_value(f, list(args))
     return None
+
+
+@model('ptr::eq')
+def _ptr_eq(E, ci, a, b):
+    if isinstance(a, Ref) and isinstance(b, Ref):
+        return a.cont is b.cont and a.key == b.key
+    if isinstance(a, Slice) and isinstance(b, Slice):
+        return a.buf is b.buf and a.a == b.a and a.b == b.b
+    raise ModelGap('ptr::eq on ' + repr(a))
